@@ -72,3 +72,32 @@ def weighted(*pairs):
     for w, s in pairs:
         table.extend([s] * w)
     return st.integers(0, len(table) - 1).flatmap(lambda i: table[i])
+
+
+def b58_digit_run_data(prefix, free_len, suffix, width, chunk, digit, seed):
+    """bytes `prefix || free || suffix` (free: free_len bytes chosen here) whose Base58Check text - whatever the four
+    checksum bytes turn out to be - has the Base58 digit value `digit` (0 = the character '1') at the `width` digit
+    positions [lo, lo + width), counted from the least significant digit, where lo is the `chunk`-th multiple of `width`
+    that the checksum and the fixed suffix cannot reach.  None when the free part is too short for that."""
+    import hashlib
+    s_len = len(suffix)
+    unit = (1 << (8 * s_len)) << 32                       # what one step of the free part adds to the text's number
+    lo = 0
+    while 58 ** lo < 2 * unit + (1 << 33):
+        lo += 1
+    lo = (lo + width - 1) // width * width + chunk * width
+    total = (int.from_bytes(prefix or b"\0", "big") + 1) << (8 * (free_len + s_len) + 32)
+    if 58 ** (lo + width) * 58 > total >> 8:
+        return None
+    base = ((int.from_bytes(prefix, "big") << (8 * (free_len + s_len))) + int.from_bytes(suffix, "big")) << 32
+    R = int.from_bytes(hashlib.sha512(b"verif b58 run %d" % seed).digest() * 2, "big") % (1 << (8 * free_len))
+    B = 58 ** (lo + width)
+    A = (base + R * unit) // B
+    T = A * B + digit * (58 ** width - 1) // 57 * 58 ** lo
+    room = 58 ** lo - 2 * unit - (1 << 33)
+    if seed % 2 and room > 0:                             # arbitrary digits below the run (otherwise zeros down to the checksum)
+        T += (R * 0x9E3779B97F4A7C15 + seed) % room
+    F = -((base - T) // unit)                             # ceil((T - base) / unit)
+    if not 0 <= F < (1 << (8 * free_len)):
+        return None
+    return prefix + F.to_bytes(free_len, "big") + suffix
